@@ -489,11 +489,18 @@ Proof. vm_compute. repeat split; reflexivity. Qed.
    ByzantineValidators as light/detector.go newLightClientAttackEvidence fills them;
    GetByzantineValidators is C11.Model.byz_validators applied to the translated arguments.
    [hc_full fx ...] is the list (receiver, evidence), newest first, handleConflictingHeaders
-   reports.  [fx] = true models fixes/F77-detector-byzantine-validators-of-evidence-height.diff,
-   [fx] = false the code as it stands.  [an] / [hn] translate addresses / hashes into C11's opaque
+   reports.  [fx] = true is the code as it is (repair F77,
+   fixes/F77-detector-byzantine-validators-of-evidence-height.diff, is applied to the
+   repository), [fx] = false the code before that repair, kept as the regression witness.  The
+   full evidence of [hc_full true] is compared with the implementation's evidence (Timestamp,
+   TotalVotingPower, ByzantineValidators in order) on every run of the correspondence
+   (C09/EvidenceRun.v threads it through the call tree; Exec.v observables 17, 18), and three
+   monitors re-check the statements below on the implementation's own evidence: the specification
+   C11/Spec.v on its fields (clause 8), a real evidence.Pool over the honest chain admitting it
+   (clause 9), and no header stored while a witness holds and can back the honest one (clause 10).  [an] / [hn] translate addresses / hashes into C11's opaque
    identities.  [no_collision bs x]: no block of bs has x's header hash without having x's header
    and validator set.  [node_env node top]: the chain a full node holds, as C11's environment. *)
-From TM Require Import C09.EvidenceModel C09.ProofsEvidence.
+From TM Require Import C09.EvidenceModel C09.EvidenceRun C09.ProofsEvidence.
 From TM Require C11.Model C11.Spec C11.SpecProofs.
 From Coq Require Import Lia.
 
@@ -537,6 +544,20 @@ Theorem C09_evidence_origin :
                                            now s ptrace b = (Some (xtrace, target), s')) ).
 Proof. exact evidence_origin. Qed.
 Print Assumptions C09_evidence_origin.
+
+(* the functions of C09/EvidenceRun.v, which thread the full evidence through the client's entry
+   points so that Exec.v can compare it with the implementation's evidence on every run, are
+   Model.v's call tree: dropping the full evidence gives Model.step, for every operation, client,
+   state and provider behaviour *)
+Theorem C09_evidence_run_refines_step :
+  forall (sig : Type) (sv : key -> signmsg -> sig -> bool) (hash : header -> Z)
+         (vhash : list validator -> Z) (bid_hash : blockid -> Z) (an hn : Z -> N)
+         (W : Type) (ask : W -> pid -> Z -> preply sig * W) (rank : pid -> Z)
+         (P : params) (c : client sig) (s : st sig W) (o : op),
+    pr sig W (EvidenceRun.step_full sig sv hash vhash bid_hash an hn W ask rank P c s o) =
+    step sig sv hash vhash bid_hash W ask rank P c s o.
+Proof. exact step_full_refines. Qed.
+Print Assumptions C09_evidence_run_refines_step.
 
 (* (1) the contents.  For every successful examination of a verified trace [xtrace] (the accused
    side) with the other side as source: ConflictingBlock is a block of xtrace the client verified
@@ -602,8 +623,8 @@ Theorem C09_trust_level_covers_one_third :
 Proof. exact trusting_level_third. Qed.
 Print Assumptions C09_trust_level_covers_one_third.
 
-(* (2) admission.  The evidence of the REPAIRED detector (F77), formed from a successful
-   examination of the accused side's verified trace, passes C11's model of Pool.verify /
+(* (2) admission.  The evidence of the detector (the code as it is, [fx] = true), formed from a
+   successful examination of the accused side's verified trace, passes C11's model of Pool.verify /
    VerifyLightClientAttack (with F57 / F60) at a full node on the trusted side.  Premises, all
    named:  hashes translate injectively; no block of the examined trace collides with the common
    / the trusted block; the client's trust level is within int64 and at least 1/3; the validator
@@ -728,12 +749,13 @@ Definition yverify (fx : bool) (pblock trusted common base : lblock isig) : bool
            (to_evidence isig ideal_verify xhash xvhash xbid zn zn 7 (lb_vals isig base)
               (new_evidence_full isig ideal_verify xhash xvhash xbid zn zn fx pblock trusted common)).
 
-(* F77.  The primary equivocates at height 4 (same derived hashes, same round, everybody signs both
+(* F77 - the regression witness for the code BEFORE the repair ([fx] = false).  The primary equivocates at height 4 (same derived hashes, same round, everybody signs both
    blocks); the client, rooted at height 1, verified 1 -> 4' in one skipping step; the witness
    backs the genuine block 4 from the common block 1.  CommonHeight = 4 (not lunatic), but the
    code looks the double signers up in the validator set of the COMMON block (height 1: powers
-   10/10/10), the full node in the set of height 4 (10/15/20): the evidence of the unrepaired
-   detector is REFUSED by the honest full node, the evidence of the repaired one is admitted.
+   10/10/10), the full node in the set of height 4 (10/15/20): the evidence of the detector
+   before the repair is REFUSED by the honest full node, the evidence of the code as it is is
+   admitted (bin/check on a tree without the repair: monitor clauses 8 and 9 fail with input).
    Replayed on the implementation (light.Client + evidence.Pool, 4 validators, powers
    10/10/10/10 -> 10/15/20/25): AddEvidence fails with 'evidence contained an unexpected
    byzantine validator address' without the repair and succeeds with it. *)
